@@ -139,7 +139,11 @@ class MultiFilter(Filter):
 
     def __call__(self, tokens):
         # Only selects on the first token
-        t = next(tokens)
+        try:
+            t = next(tokens)
+        except StopIteration:
+            # No tokens (e.g. an empty text): nothing to filter
+            return iter(())
         filter = self.filters.get(t.mode, self.default_filter)
         return filter(chain([t], tokens))
 
